@@ -37,6 +37,12 @@ def run(rng, tier, res=None):
         K = rng.choice([1, 2, 3])
         Y = np.array([rng.randrange(K) for _ in range(n)], dtype=int)
         pct = rng.choice([0.0, 1.0, 0.5, 0.1, 0.9, rng.random(), rng.randint(0, n) / n, 0.7, 0.3, 0.29, 0.58])
+        if case % 9 == 4:
+            # products n*percentage that land a few ulps BELOW an integer in binary64 (the first set has floor of the product)
+            n, pct = rng.choice([(90, 0.7), (170, 0.7), (180, 0.35), (100, 0.29), (100, 0.57), (100, 0.58), (50, 0.58), (150, 0.82)])
+            d = 1
+            X = np.array([[float(i)] for i in range(n)]); Y = np.array([rng.randrange(K) for _ in range(n)], dtype=int)
+            res.hit("product_just_below_integer")
         seed = rng.choice([0, 0, 1, rng.randint(0, 10 ** 6), rng.randint(0, 10 ** 6), rng.randint(0, 2 ** 31 - 1)])
         np.random.seed(rng.randint(1, 10 ** 6))      # the result must not depend on the global RNG state before the call
         Xb, Yb = X.tobytes(), Y.tobytes()
@@ -167,7 +173,11 @@ def run(rng, tier, res=None):
             [rng.choice([rng.randint(0, 2 ** 31 - 1), 2 ** 24 + 1 + rng.randint(0, 1000), 123456789, rng.randint(0, 99)]) for _ in range(n)]
         feats = [[struct.unpack("<f", struct.pack("<f", rng.choice([rng.gauss(0, 10), rng.uniform(-1e-3, 1e-3), float(rng.randint(-5, 5)), 1e10 * rng.random()])))[0]
                   for _ in range(d)] for _ in range(n)]
-        raw = struct.pack("<iii", n, K, d)
+        Kh = K
+        if rng.random() < 0.3:
+            Kh = K + rng.choice([1, 2])        # a subset file keeps the whole data set's class count in its header
+            res.hit("header_class_count_above_labels_present")
+        raw = struct.pack("<iii", n, Kh, d)
         for i in range(n):
             raw += struct.pack("<ii" + "f" * d, ids[i], labels1[i], *feats[i])
         # a few path names per shape are re-used: a file re-written with another dataset of the same size is a new dataset
